@@ -51,6 +51,11 @@ type entry struct {
 	ENum   uint64 // reorg: end
 	EHash  felt.Felt
 	Note   string
+	// served: the honest block this answer was derived from, and what it still shares with it
+	Orig     felt.Felt
+	RootSame bool // claimed roots (header GlobalStateRoot, state update OldRoot/NewRoot) are the honest block's
+	DiffSame bool // state diff and declared classes are the honest block's
+	Sane     bool // passes SanityCheckNewHeight (honest blocks and self-consistent forged ones)
 }
 
 type headRec struct {
